@@ -10,9 +10,12 @@
        (mod.rs:889).  Its keys are InstrumentationMode::Before (block exit) and ::After (semantic after).
        Lowering.pend2 fixes the order Before, After; here the inner map is a list of (mode, pend) entries in
        *iteration order* and [resolve_entries] is the loop.
-   (2) resolve_on_else_or_end : HashMap<InstrumentationMode, InstrToInject> (mod.rs:705), iterated at `else`
-       and `end` (mod.rs:808, 881); only plan_resolution_block_exit writes it, always under the key Before.
-       Lowering.r_roe is the not_flagged list of that single entry; here the map is built by [inner_insert].
+   (2) resolve_on_else_or_end : HashMap<BlockID, HashMap<InstrumentationMode, InstrToInject>> (mod.rs:705), keyed by
+       the block id of the `if` that waits, exactly like resolve_on_end: the outer map is only looked up / removed
+       by key (at the `else` / `end` of that `if`), the inner map is iterated.  Only plan_resolution_block_exit
+       writes it, always under the mode Before, so an inner map has the single key Before: for the bodies [bs]
+       registered for one `if` it is [roe_map bs], and Lowering models the entry as the pend2 whose Before part
+       holds [bs] and whose After part is empty.
    (3) func / global / memory mapping : HashMap<u32,u32> (get_mapping_generic, mod.rs:1029): looked up only
        (Reindex.lookup (Reindex.mapping l)).
    (4) types : HashMap<TypeID,Types>.  ModuleTypes::new collects its keys (`types.keys()`, visited in hash order
@@ -58,7 +61,8 @@ Fixpoint inner_insert (m : imode) (b : list fop) (l : list (imode * pend)) : lis
   | [] => [(m, mkPend [] [b])]
   | (m', p) :: l' => if imode_eqb m' m then (m', add_not b p) :: l' else (m', p) :: inner_insert m b l'
   end.
-(* resolve_on_else_or_end after the block-exit bodies [bs] of enclosing `if`s were registered (all under Before) *)
+(* the inner map of one resolve_on_else_or_end entry after the block-exit bodies [bs] of its `if` were registered
+   (all under Before) *)
 Definition roe_map (bs : list (list fop)) : list (imode * pend) :=
   fold_left (fun l b => inner_insert IBefore b l) bs [].
 
